@@ -1278,7 +1278,26 @@ func VerifLayout(n int) {
 		lit := []string{narrow, wide}
 		pairA := [][2]int{{0, 0}, {0, 0}, {0, 0}, {0, 1}}[v]
 		pairB := [][2]int{{1, 0}, {0, 1}, {1, 1}, {1, 1}}[v]
+		// where the first literal stands: right-hand side of an assignment, a statement of its
+		// own (top level, last statement of a method body, inside a do-block), a call argument
+		pos := verifapi.Concrete(verifapi.Int("position", 0, 4))
+		if pos > 0 && v >= 2 {
+			// the identical-content variants are a known finding of the pinned tree in every
+			// position (same root); they stay with the assignment form
+			return
+		}
 		mk := func(p [2]int) string {
+			tail := "t = " + lit[p[1]] + "\nx = Sym.a\ndbtp x\ndbtp t\nundefined_fn(1)\n"
+			switch pos {
+			case 1:
+				return "z = 1\n" + lit[p[0]] + "\n" + tail
+			case 2:
+				return "def g(q)\nz = 1\n" + lit[p[0]] + "\nend\n" + tail + "dbtp g(1)\n"
+			case 3:
+				return "p(" + lit[p[0]] + ")\n" + tail
+			case 4:
+				return "[1].each do |e|\nz = e\n" + lit[p[0]] + "\nend\n" + tail
+			}
 			return "s = " + lit[p[0]] + "\nt = " + lit[p[1]] + "\nx = Sym.a\ndbtp x\ndbtp s\nundefined_fn(1)\n"
 		}
 		a, b := mk(pairA), mk(pairB)
@@ -1290,10 +1309,11 @@ func VerifLayout(n int) {
 			[]string{"", "/backslash-newline-continuation", "/single-quoted"}[form]
 		// the inserted physical lines are the continuation lines of the literals; nothing is
 		// reported on them, so "dropping" rows [at, at+delta) is harmless
-		at := 2
+		at := []int{1, 2, 3, 1, 3}[pos] + 1
 		if v == 1 {
-			at = 3
+			at = []int{2, 3, 5, 2, 5}[pos] + 1
 		}
+		name += []string{"", "/literal-as-a-statement-of-its-own", "/literal-as-last-statement-of-a-method", "/literal-as-call-argument", "/literal-as-statement-inside-a-do-block"}[pos]
 		verifExpectShift("C06-shift", "C06/newline-inside-string-literal-changes-more-than-rows/"+name, a, b, outA, outB, at, added)
 	}
 }
